@@ -433,6 +433,12 @@ func (c *Checked) checkDotError(i int, op Op, g *DotGraph, colors map[int]string
 		if len(orange) >= 1 {
 			c.probe("dot_error_depth>=2")
 		}
+		if len(orange) >= 8 {
+			c.probe("dot_error_depth>=9")
+		}
+		if len(orange) >= 16 {
+			c.probe("dot_error_depth>=17")
+		}
 		return
 	}
 	// a missing type: red nodes are the missing keys, the consumers above orange
@@ -482,6 +488,12 @@ func (c *Checked) checkDotError(i int, op Op, g *DotGraph, colors map[int]string
 	}
 	if len(orange) >= 2 {
 		c.probe("dot_error_depth>=2")
+	}
+	if len(orange) >= 9 {
+		c.probe("dot_error_depth>=9")
+	}
+	if len(orange) >= 17 {
+		c.probe("dot_error_depth>=17")
 	}
 }
 
